@@ -2,3 +2,4 @@ import Proofs.C14
 import Proofs.C09
 import Proofs.C07
 import Proofs.C12
+import Proofs.C11
